@@ -162,6 +162,40 @@ func recoverShape(c *core.Ctx) {
 			return tv.Value.String() == "true", true
 		}
 		isNextCall := func(call *ast.CallExpr) bool { return astx.ObjOf(info, call.Fun) == next }
+		// polarity: the "armed" value is the one the flag is initialised with before next runs
+		// (`panicked := true` or, inverted, `returnedNormally := false`)
+		armed, armedKnown := false, false
+		for _, st := range closure.Body.List {
+			if v, ok := flagValue(st); ok {
+				armed, armedKnown = v, true
+				break
+			}
+			if ds, ok := st.(*ast.DeclStmt); ok {
+				if gd, ok := ds.Decl.(*ast.GenDecl); ok {
+					for _, spec := range gd.Specs {
+						if vs, ok := spec.(*ast.ValueSpec); ok {
+							for i, nm := range vs.Names {
+								if info.Defs[nm] == flag {
+									armedKnown = true
+									if i < len(vs.Values) {
+										if tv, ok := info.Types[vs.Values[i]]; ok && tv.Value != nil {
+											armed = tv.Value.String() == "true"
+										}
+									}
+								}
+							}
+						}
+					}
+				}
+			}
+			if armedKnown {
+				break
+			}
+		}
+		if !armedKnown {
+			c.Undecided(key+"/flag-init", closure.Pos(), "the flag has no constant initial value in the closure")
+			continue
+		}
 
 		// Path analysis of the closure body.
 		sawGuarded := 0
@@ -177,7 +211,9 @@ func recoverShape(c *core.Ctx) {
 					deferSeen = true
 				}
 				if v, ok := flagValue(st); ok {
-					flagKnown, flagVal = true, v
+					flagKnown, flagVal = true, v == armed
+				} else if ds, ok := st.(*ast.DeclStmt); ok && astx.Mentions(info, ds, flag) {
+					flagKnown, flagVal = true, true
 				} else if as, ok := st.(*ast.AssignStmt); ok {
 					for _, l := range as.Lhs {
 						if astx.ObjOf(info, l) == flag {
@@ -280,7 +316,7 @@ func recoverShape(c *core.Ctx) {
 			for _, f := range s.Facts {
 				e := astx.Unparen(f.Expr)
 				if astx.ObjOf(info, e) == flag {
-					if f.Pol {
+					if f.Pol == armed {
 						flagTrue = true
 					} else {
 						flagFalse = true
@@ -290,7 +326,7 @@ func recoverShape(c *core.Ctx) {
 				if l, op, r, ok := astx.CompareOp(e); ok && astx.ObjOf(info, l) == flag {
 					if tv, ok2 := info.Types[r]; ok2 && tv.Value != nil {
 						v := (tv.Value.String() == "true") == (op == token.EQL)
-						if v == f.Pol {
+						if (v == f.Pol) == armed {
 							flagTrue = true
 						} else {
 							flagFalse = true
